@@ -1,4 +1,5 @@
 """C01 - each client's versions form one unbranched chain, walkable end to end."""
+from rules import http as H
 from rules import shared as S
 from tcss import world as WD
 
@@ -24,3 +25,4 @@ def run(rep, W, ctx):
     S.latest_writers(rep, W)
     S.s_class(rep, W)
     S.s_txn1(rep, W, W.op("get_child_version"))
+    S.c08(rep, W)                        # ... and finally answers not-found at the latest version
